@@ -18,7 +18,8 @@ RULE = ('all argument combinations (S,S0,R,L) from the stated menus, each once; 
         'get_substructure; non-trivial = construction succeeded with >=2 states and a non-empty '
         'label somewhere')
 ASSUMPTIONS = ['L is None or a dict whose values are iterables of hashables; V is a set',
-               'states are the ints 0..3, the non-state is 9']
+               'states are 0..3 (non-state 9) under 4 naming schemes: ints, strings (incl. the empty '
+               'string), tuples, mixed int/str/tuple/frozenset']
 BUDGET = {'quick': 600, 'thorough': 1800}
 
 S_MENU = [None, (), (0,), (1,), (0, 1), (1, 0), (0, 1, 2), (2, 0)]
@@ -33,6 +34,14 @@ L_MENU = [
     {0: 'p', 1: {'q'}, 2: set(), 3: ['r']},
     {1: ['p', 'p'], 2: {'p', 'q'}},
 ]
+
+
+NAMINGS = {
+    'ints': lambda i: i,
+    'strings': lambda i: {0: 'a', 1: 'B', 2: 'zz', 3: '', 9: 'nine'}[i],
+    'mixed': lambda i: {0: 0, 1: 'a', 2: (1, 2), 3: frozenset([7]), 9: None if False else ('no', 'state')}[i],
+    'tuples': lambda i: ('s', i),
+}
 
 
 def relations(tier):
@@ -76,15 +85,23 @@ def exp_label(L, s):
 
 
 def snap(K):
-    return (sorted(K._next.keys()), sorted((s, d) for s in K._next for d in K._next[s]),
-            sorted((s, sorted(K._labels[s])) for s in K._labels), sorted(K.S0))
+    return (sorted(K._next.keys(), key=repr), sorted(((s, d) for s in K._next for d in K._next[s]), key=repr),
+            sorted(((s, sorted(K._labels[s], key=repr)) for s in K._labels), key=repr),
+            sorted(K.S0, key=repr))
 
 
-def check(S, S0, R, L, acc):
+def check(S, S0, R, L, acc, naming='ints'):
+    nm = NAMINGS[naming]
     case = {'S': None if S is None else list(S), 'S0': None if S0 is None else list(S0),
             'R': [list(e) for e in R], 'L': None if L is None else
-            dict((str(k), sorted(v)) for k, v in L.items())}
+            dict((str(k), sorted(v, key=repr)) for k, v in L.items())}
     case['L_index'] = L_MENU.index(L)
+    case['naming'] = naming
+    # the case stays described over ints; everything below works on the named objects
+    S = None if S is None else tuple(nm(x) for x in S)
+    S0 = None if S0 is None else tuple(nm(x) for x in S0)
+    R = tuple((nm(a), nm(b)) for (a, b) in R)
+    L = None if L is None else dict((nm(k), v) for k, v in L.items())
     Larg = lab_copy(L)
     res = call(Kripke, S=None if S is None else list(S), S0=None if S0 is None else list(S0),
                R=list(R), L=Larg)
@@ -110,13 +127,13 @@ def check(S, S0, R, L, acc):
         acc.violation(kind, c, exp, got)
 
     if set(K.states()) != nodes:
-        bad('states', sorted(nodes), sorted(K.states()))
+        bad('states', sorted(nodes, key=repr), sorted(K.states(), key=repr))
         return
     if set(K.transitions()) != set(R) or len(list(K.transitions())) != len(set(R)):
-        bad('transitions', sorted(set(R)), sorted(K.transitions()))
+        bad('transitions', sorted(set(R), key=repr), sorted(K.transitions(), key=repr))
     expS0 = set(S0 or ()) & nodes
     if not isinstance(K.S0, set) or K.S0 != expS0:
-        bad('S0', sorted(expS0), sorted(K.S0))
+        bad('S0', sorted(expS0, key=repr), sorted(K.S0, key=repr))
     for s in nodes:
         r = call(K.labels, s)
         if r[0] != 'ok' or not isinstance(r[1], set) or r[1] != exp_label(L, s):
@@ -125,7 +142,7 @@ def check(S, S0, R, L, acc):
             bad('label-set-is-callers-object', state=s)
         r = call(K.next, s)
         if r[0] != 'ok' or set(r[1]) != set(d for (a, d) in R if a == s) or not r[1]:
-            bad('next', sorted(d for (a, d) in R if a == s), r[1:], state=s)
+            bad('next', sorted((d for (a, d) in R if a == s), key=repr), r[1:], state=s)
     if Larg != lab_copy(L):
         bad('constructor-modified-L')
     allab = call(K.labels)
@@ -134,7 +151,7 @@ def check(S, S0, R, L, acc):
         expall |= exp_label(L, s)
     if allab[0] != 'ok' or allab[1] != expall:
         bad('labels()', sorted(expall), allab[1:])
-    for x in (9, 'zz', (0, 1)):
+    for x in (nm(9), 'zz_', (0, 1), (0, 1, 2), ()):
         for meth in ('labels', 'next'):
             r = call(getattr(K, meth), x)
             if not (r[0] == 'exc' and r[1] == 'RuntimeError'):
@@ -155,7 +172,7 @@ def check(S, S0, R, L, acc):
         else:
             for s in nodes:
                 C.labels(s).add('zz')
-            C.S0.add(9)
+            C.S0.add(nm(9))
             if snap(K) != before:
                 bad('clone-mutation-leaks', before, snap(K))
             C2 = K.clone()
@@ -167,10 +184,10 @@ def check(S, S0, R, L, acc):
             for s in nodes:
                 K.labels(s).discard('yy')
     # substructures
-    nl = sorted(nodes)
+    nl = sorted(nodes, key=repr)
     for k in range(len(nl) + 1):
         for V in itertools.combinations(nl, k):
-            for extra in ((), (9,)):
+            for extra in ((), (nm(9),)):
                 Vs = set(V) | set(extra)
                 Vcopy = set(Vs)
                 expE = set((s, d) for (s, d) in R if s in V and d in V)
@@ -180,20 +197,21 @@ def check(S, S0, R, L, acc):
                 if not tot:
                     if not (r[0] == 'exc' and r[1] == 'RuntimeError'):
                         bad('substructure-non-total-accepted', 'RuntimeError',
-                            r if r[0] == 'exc' else 'constructed', V=sorted(Vs))
+                            r if r[0] == 'exc' else 'constructed', V=sorted(Vs, key=repr))
                     continue
                 if r[0] != 'ok':
-                    bad('substructure-total-rejected', 'constructed', r[1:], V=sorted(Vs))
+                    bad('substructure-total-rejected', 'constructed', r[1:], V=sorted(Vs, key=repr))
                     continue
                 Sb = r[1]
-                exp = (sorted(V), sorted(expE), sorted((s, sorted(exp_label(L, s))) for s in V),
-                       sorted(expS0 & set(V)))
+                exp = (sorted(V, key=repr), sorted(expE, key=repr),
+                       sorted(((s, sorted(exp_label(L, s), key=repr)) for s in V), key=repr),
+                       sorted(expS0 & set(V), key=repr))
                 if type(Sb) is not Kripke or snap(Sb) != exp:
-                    bad('substructure', exp, snap(Sb), V=sorted(Vs))
+                    bad('substructure', exp, snap(Sb), V=sorted(Vs, key=repr))
                 elif any(Sb._labels[s] is K._labels[t] for s in V for t in nodes):
-                    bad('substructure-shares-label-sets', V=sorted(Vs))
+                    bad('substructure-shares-label-sets', V=sorted(Vs, key=repr))
                 if Vs != Vcopy:
-                    bad('substructure-modifies-V', V=sorted(Vcopy))
+                    bad('substructure-modifies-V', V=sorted(Vcopy, key=repr))
     if snap(K) != before:
         bad('structure-modified', before, snap(K))
 
@@ -210,6 +228,12 @@ def run_shard(shard, tier, seed, acc):
                 for S0 in S0_MENU:
                     for L in L_MENU:
                         check(S, S0, Rv, L, acc)
+        # heterogeneous / non-int state objects: same oracle on a thinner slice of the menus
+        for naming in ('strings', 'mixed', 'tuples'):
+            for S in S_MENU[::2]:
+                for S0 in S0_MENU[::3]:
+                    for L in L_MENU[::2]:
+                        check(S, S0, R, L, acc, naming)
     acc.sample({'S': [0, 1], 'S0': [0, 9], 'R': [list(e) for e in rels[0]],
                 'L': {'0': ['p', 'q'], '1': []}})
 
@@ -220,5 +244,5 @@ def replay(art):
     acc = Acc()
     L = L_MENU[c['L_index']]
     check(None if c['S'] is None else tuple(c['S']), None if c['S0'] is None else tuple(c['S0']),
-          tuple(tuple(e) for e in c['R']), L, acc)
+          tuple(tuple(e) for e in c['R']), L, acc, c.get('naming', 'ints'))
     return {'violates': acc.d['nviol'] > 0, 'detail': acc.d['violations'][:2]}
